@@ -9,7 +9,7 @@ Open Scope Z_scope.
 Theorem regroup_to_expr num (dec : Z -> nat -> num * num) (s : sexpr) :
   to_expr num dec (s_regroup s) = f_regroup num (to_expr num dec s).
 Proof.
-  induction s as [i k|z|m sc|a IHa|a IHa|o a IHa b IHb|a IHa|a IHa|a IHa|m a IHa b IHb];
+  induction s as [i k|z|m sc|m sc|a IHa|a IHa|o a IHa b IHb|a IHa|a IHa|a IHa|m a IHa b IHb];
     cbn [s_regroup to_expr f_regroup]; try congruence.
   destruct (is_mul o).
   - rewrite <- IHa, <- IHb. destruct (s_regroup a); reflexivity.
@@ -93,15 +93,20 @@ Definition ends_token (p : ascii -> bool) (rest : str) : Prop := match rest with
 
 Lemma lex_int f (ds rest : str) :
   ds <> [] -> forallb is_digit ds = true -> ends_token is_digit rest -> ends_token (fun d => ascii_eqb d ".") rest ->
+  ends_token (fun d => ascii_eqb d "d" || ascii_eqb d "D" || ascii_eqb d "e" || ascii_eqb d "E" || ascii_eqb d "_") rest ->
   lex (S f) (ds ++ rest) = lcons (TInt (digits_val ds)) (lex f rest).
 Proof.
-  intros Hne Hd He Hdot. destruct ds as [|c ds']; [contradiction|].
+  intros Hne Hd He Hdot Hsuf. destruct ds as [|c ds']; [contradiction|].
   assert (Hc : is_digit c = true) by (cbn [forallb] in Hd; apply andb_true_iff in Hd as [Hc _]; exact Hc).
   destruct (take_while_all is_digit (c :: ds') rest Hd) as [Ht Hdr].
   { destruct rest; [exact I|exact He]. }
   change ((c :: ds') ++ rest) with (c :: ds' ++ rest) in *.
   cbn [lex]. rewrite (digit_not_blank c Hc), Hc. rewrite Ht, Hdr.
-  destruct rest as [|d r2]; [reflexivity|]. cbn [ends_token] in Hdot. rewrite Hdot. reflexivity.
+  destruct rest as [|d r2]; [reflexivity|]. cbn [ends_token] in Hdot, Hsuf. rewrite Hdot.
+  apply orb_false_iff in Hsuf as [Hsuf Hu]. 
+  assert (Hls : lex_suffix (d :: r2) = (0%Z, false, d :: r2)).
+  { unfold lex_suffix. rewrite Hsuf. destruct r2 as [|k r3]; [reflexivity|]. rewrite Hu. reflexivity. }
+  rewrite Hls. rewrite Nat.eqb_refl. reflexivity.
 Qed.
 
 Lemma lex_id f c (cs rest : str) :
@@ -143,7 +148,7 @@ Proof.
     with (("s"%char :: lit "olved_values") ++ "("%char :: dec n ++ ","%char :: " "%char :: f_idx_text k ++ [")"%char]).
   rewrite lex_id by reflexivity.
   rewrite lex_lp.
-  rewrite (lex_int _ (dec n)); [|apply dec_nonempty|apply dec_all_digits|reflexivity|reflexivity].
+  rewrite (lex_int _ (dec n)); [|apply dec_nonempty|apply dec_all_digits|reflexivity|reflexivity|reflexivity].
   rewrite digits_val_dec.
   rewrite lex_comma, lex_blank.
   destruct k as [|q|q]; cbn [f_idx_text term_toks app].
@@ -152,12 +157,12 @@ Proof.
   - change ((lit "index+" ++ dec (Pos.to_nat q)) ++ [")"%char]) with (("i"%char :: lit "ndex") ++ "+"%char :: dec (Pos.to_nat q) ++ [")"%char]).
     rewrite lex_id by reflexivity.
     rewrite lex_plus.
-    rewrite (lex_int _ (dec (Pos.to_nat q))); [|apply dec_nonempty|apply dec_all_digits|reflexivity|reflexivity].
+    rewrite (lex_int _ (dec (Pos.to_nat q))); [|apply dec_nonempty|apply dec_all_digits|reflexivity|reflexivity|reflexivity].
     rewrite digits_val_dec, positive_nat_Z, lex_rp_end. reflexivity.
   - change ((lit "index-" ++ dec (Pos.to_nat q)) ++ [")"%char]) with (("i"%char :: lit "ndex") ++ "-"%char :: dec (Pos.to_nat q) ++ [")"%char]).
     rewrite lex_id by reflexivity.
     rewrite lex_minus.
-    rewrite (lex_int _ (dec (Pos.to_nat q))); [|apply dec_nonempty|apply dec_all_digits|reflexivity|reflexivity].
+    rewrite (lex_int _ (dec (Pos.to_nat q))); [|apply dec_nonempty|apply dec_all_digits|reflexivity|reflexivity|reflexivity].
     rewrite digits_val_dec, positive_nat_Z, lex_rp_end. reflexivity.
 Qed.
 
@@ -185,3 +190,13 @@ Proof.
   - rewrite <- (app_nil_r (term_toks (S i) k)). apply p_term_toks.
   - rewrite app_length. cbn [lit list_ascii_of_string length]. lia.
 Qed.
+
+(* kind suffixes and exponent letters are read (the natural repair of the REAL(4) findings would write them): 0.1d0 and 0.1_8
+   are REAL(8) constants, 1.5e-3 a REAL(4) one, 2_8 an integer *)
+Example parse_kind_suffixes :
+  parse_stmt (lit "solved_values(1, index) = 0.1d0 * solved_values(2, index) + 0.1_8 - 1.5e-3 * 2_8 + 25d-1 + .5D0")
+  = Some (0%nat, SBin OAdd (SBin OAdd (SBin OSub (SBin OAdd (SBin OMul (SDec8 1 1) (SVar 1 0)) (SDec8 1 1))
+                                                 (SBin OMul (SDec 15 4) (SInt 2)))
+                                      (SDec8 25 1))
+                           (SDec8 5 1)).
+Proof. vm_compute. reflexivity. Qed.
